@@ -354,4 +354,75 @@ theorem src_sb_step_eq_model (st : SB) (s : SBytes) (op : Op Byte) (h : RelB st 
   | drain => simp [tiedB] at ht
   | writelines ss => simp [tiedB] at ht
 
+/-- a history of public calls on the GENERATED definitions -/
+def srcRunB (st : SB) : List (Op Byte) → List (Except PyExc (Out Byte)) × SB
+  | [] => ([], st)
+  | op :: ops => ((srcStepB st op).1 :: (srcRunB (srcStepB st op).2 ops).1, (srcRunB (srcStepB st op).2 ops).2)
+
+theorem src_sb_run_eq_model (st : SB) (s : SBytes) (ops : List (Op Byte)) (h : RelB st s)
+    (ht : ∀ op ∈ ops, tiedB op = true) (hin : InRange s.buf) (hv : validB s.buf ops = true) :
+    (srcRunB st ops).1 = (s.run ops).1.map .ok ∧ RelB (srcRunB st ops).2 (s.run ops).2 := by
+  induction ops generalizing st s with
+  | nil => exact ⟨rfl, h⟩
+  | cons op ops ih =>
+    simp only [validB, Bool.and_eq_true] at hv
+    have h1 := src_sb_step_eq_model st s op h (ht op (by simp)) hin hv.1
+    have hbuf : (s.step op).2.buf = (Spec.step bytesSem s.buf op).2 := by
+      rw [(SBytes.step_eq s op).2, bStep_spec s.buf op hin hv.1]
+    have h2 := ih (srcStepB st op).2 (s.step op).2 h1.2 (fun o ho => ht o (by simp [ho]))
+      (by rw [hbuf]; exact spec_inRange s.buf op hin hv.1) (by rw [hbuf]; exact hv.2)
+    simp only [srcRunB, SBytes.run, List.map_cons]
+    exact ⟨by rw [h1.1, h2.1], h2.2⟩
+
+/-- HISTORIES: from a fresh object, every history of translated calls inside the statement's domain runs on the
+    generated definitions without an exception, returns call by call what the model returns, and ends in an object
+    standing for the model's final state -/
+theorem src_sb_history_refines (m : Nat) (ops : List (Op Byte)) (ht : ∀ op ∈ ops, tiedB op = true)
+    (hv : validB File.empty ops = true) :
+    (srcRunB (srcInitB m) ops).1 = ((SBytes.init m).run ops).1.map .ok ∧
+    RelB (srcRunB (srcInitB m) ops).2 ((SBytes.init m).run ops).2 :=
+  src_sb_run_eq_model _ _ ops (RelB_init m) ht (by simp [InRange, SBytes.init, File.empty]) hv
+
+/-- hence the property holds of what the SOURCE computes: a history of translated calls returns exactly what
+    `io.BytesIO` returns and ends with its content and position — whatever `max_size` -/
+theorem src_bytes_refines_BytesIO (m : Nat) (ops : List (Op Byte)) (ht : ∀ op ∈ ops, tiedB op = true)
+    (hv : validB File.empty ops = true) :
+    (srcRunB (srcInitB m) ops).1 = (Spec.run bytesSem File.empty ops).1.map .ok ∧
+    (srcRunB (srcInitB m) ops).2.buffer.f = (Spec.run bytesSem File.empty ops).2 := by
+  have h := src_sb_history_refines m ops ht hv
+  have hb := bytes_refines_BytesIO m ops hv
+  exact ⟨by rw [h.1, hb.1], by rw [h.2.f, hb.2]⟩
+
+/-- rolling over is invisible in what the source returns -/
+theorem src_rollover_invisible (m₁ m₂ : Nat) (ops : List (Op Byte)) (ht : ∀ op ∈ ops, tiedB op = true)
+    (hv : validB File.empty ops = true) :
+    (srcRunB (srcInitB m₁) ops).1 = (srcRunB (srcInitB m₂) ops).1 ∧
+    (srcRunB (srcInitB m₁) ops).2.buffer.f = (srcRunB (srcInitB m₂) ops).2.buffer.f := by
+  have h1 := src_bytes_refines_BytesIO m₁ ops ht hv
+  have h2 := src_bytes_refines_BytesIO m₂ ops ht hv
+  exact ⟨by rw [h1.1, h2.1], by rw [h1.2, h2.2]⟩
+
+/-- non-vacuity: a history with a rollover by `max_size`, reads, seeks of all three kinds, `len`, `getvalue` -/
+def demoSrcB : List (Op Byte) :=
+  [.write [104, 105, 10], .seek 0, .read 2, .len, .readline, .seekEnd 1, .write [120, 10, 121], .seekCur 0,
+   .getvalue, .tell, .rollover, .readlineN 2, .readAll]
+
+example : (∀ op ∈ demoSrcB, tiedB op = true) ∧ validB File.empty demoSrcB = true := by decide
+set_option maxRecDepth 8000 in
+example : (srcRunB (srcInitB 4) demoSrcB).1 =
+    [.ok .unit, .ok (.num 0), .ok (.data [104, 105]), .ok (.num 3), .ok (.data [10]), .ok (.num 2), .ok .unit,
+     .ok (.num 5), .ok (.data [104, 105, 120, 10, 121]), .ok (.num 5), .ok .unit, .ok (.data []), .ok (.data [])] := by
+  decide
+set_option maxRecDepth 8000 in
+example : (srcRunB (srcInitB 4) demoSrcB).2.buffer.real = true ∧ (srcRunB (srcInitB 100) demoSrcB).2.buffer.real = true := by
+  decide
+/-- the closed-check: every call after `close()` raises ValueError and changes nothing -/
+example : (SpooledBytesIO.read { buffer := { (FileObj.newMem : FileObj UInt8) with closed := true }, max_size := 3, dir := () } 1).1
+    = .error .ValueError := by decide
+/-- `len` on a temporary file with unflushed appended data: the `seek(0)` comes first, so `fstat` is specified -/
+example : (SpooledBytesIO.len { buffer := ⟨⟨[1, 2, 3], 3⟩, false, true, true⟩, max_size := 1, dir := () }).1 = .ok 3 := by
+  decide
+example : (SpooledBytesIO.truncate { buffer := ⟨⟨[1, 2, 3], 3⟩, false, false, false⟩, max_size := 9, dir := () } (some 1))
+    = (.ok none, { buffer := ⟨⟨[1], 1⟩, false, false, false⟩, max_size := 9, dir := () }) := by decide
+
 end C18
